@@ -37,7 +37,7 @@ BAD_NAMES = ["no_such_option", "display_grade", "display_revers", "Display_grade
              "varname", "graded", "sort graded", "retain_names_", "_retain_names", "displayexponent"]
 EVENTS = ["E1", "E2", "E3", "EB", "XO", "XE", "XE2", "XB", "S1", "S2", "SB", "MU", "ED", "DC"]
 MAXNEST = 3
-DEPTH = {"quick": 6, "thorough": 8}
+DEPTH = {"quick": 6, "thorough": 7}   # 14 events: depth 7 is 10x the quick search (depth 8 would need hours)
 
 META = {
     "rule": "every history over the 14-event alphabet (3 enters, an enter whose manager was created before a set_options call, two calls of a function decorated with global_options, bad enter (13 unknown names x 3 positions), normal exit, exit by exception through "
